@@ -591,6 +591,8 @@ def oracle(res, spec, impl, queries, kinds, dirs, splits):
                         base = raw.dtype["r"] if raw.dtype.names else raw.dtype
                         exp = np.promote_types("c8" if (raw.dtype.names or raw.dtype.kind == "c") else "f4", base)
                         okv = okv and z.dtype == exp
+                        zc = impl.r.read_vector_c81d(s, L, CHAN, max(j, 0))
+                        okv = okv and zc.dtype == np.dtype("c8") and zc.ndim == 1 and np.array_equal(zc, np.asarray(z1).astype("c8"))
                     except Exception as ex:  # noqa
                         okv, z = False, repr(ex)
                     if not okv:
@@ -602,6 +604,21 @@ def oracle(res, spec, impl, queries, kinds, dirs, splits):
                     res.violation("vector-not-failing-closed", "read_vector_raw over a range with a missing index "
                                                                "did not raise IOError",
                                   {"spec": ident, "query": ["vector", s, L, j]}, [1], got[:12])
+                elif L > 0:
+                    for nm, call in (("read_vector", lambda: impl.r.read_vector(s, L, CHAN, None if j < 0 else j)),
+                                     ("read_vector_1d", lambda: impl.r.read_vector_1d(s, L, CHAN, max(j, 0))),
+                                     ("read_vector_c81d", lambda: impl.r.read_vector_c81d(s, L, CHAN, max(j, 0)))):
+                        try:
+                            zz = call()
+                            res.violation("vector-not-failing-closed", "%s over a range with a missing index did not raise "
+                                          "IOError" % nm, {"spec": ident, "query": ["vector_float", s, L, j]}, "IOError",
+                                          "returned shape %s" % (getattr(zz, "shape", None),))
+                        except IOError:
+                            pass
+                        except Exception as ex:  # noqa
+                            res.violation("vector-not-failing-closed", "%s over a range with a missing index raised something "
+                                          "other than an I/O error" % nm, {"spec": ident, "query": ["vector_float", s, L, j]},
+                                          "IOError", repr(ex)[:200])
     # bounds are the first and last index any read can return
     b = impl.answer((4,))
     E = sorted(kinds)
